@@ -71,6 +71,16 @@ class Phases(drivers.Monitor):
                     self.boundary[n] = list(ex.snap.lines())
 
 
+class _KeepStart(drivers.Monitor):
+    same = False
+
+    def on_start(self, ex):
+        self.v0 = list(ex.snap.vals)
+
+    def on_end(self, ex):
+        self.same = ex.snap is not None and list(ex.snap.vals) == self.v0
+
+
 def execute(item):
     r = explore.Result()
     lines = universe.materialise(item)
@@ -122,9 +132,12 @@ def execute(item):
         if item.get("with_fix_run"):
             # a --fix run that fixes nothing (every reporting rule is a warning, or nothing is fixable) reports what the plain gated
             # check of the same text reports: same violations, same multiplicity, same stop phase
-            fx = drivers.d_pipe(it, [])
+            keep = _KeepStart()
+            fx = drivers.d_pipe(it, [keep])
             r.transitions += fx.transitions
-            if fx.outcome == "ok" and fx.rl is not None and fx.effective == 0 and not fx.written:
+            # (only if the model itself is untouched: the file-wide clean-up after phase 1 may normalise blank lines / trailing blanks in
+            # the model without anything being written - what the report then says about such lines is C08's business, not the gate's)
+            if fx.outcome == "ok" and fx.rl is not None and fx.effective == 0 and not fx.written and keep.same:
                 Vf = ground(fx)
                 if Vf != Vg or fx.rl.lastPhaseRan != last:
                     extra = [v for v in Vf if Vf.count(v) > Vg.count(v)][:2]
